@@ -154,6 +154,29 @@ def _(u):
             u.prove(f"aug.copy{a}.other-keys-replicated", out["demand"].at(a * B + b, i) == td["demand"].at(b, i))
 
 
+@unit("transforms.state_augmentation.symmetric", file=TR, func="StateAugmentation.__call__", props=("C15", "C12"))
+def _(u):
+    # the symmetric (SymNCO) family with ANY number of augmentations A >= 2 (not only the function's default 8): copy 0 of
+    # every instance is the original, every copy is an isometric image of its own instance, other keys are replicated
+    B, N = u.dims("B N")
+    A = u.dim("A", 2)
+    trig_axioms(u)
+    td = SymTD({"locs": u.tensor("locs", (B, N, 2), "f"), "demand": u.tensor("demand", (B, N), "f")}, (B,))
+    obj = u.obj(TR, "StateAugmentation", augmentation=u.interp.func(TR, "symmetric_augmentation"), feats=["locs"], num_augment=A,
+                normalize=False, first_aug_identity=True)
+    u.inline((TR, "symmetric_augmentation"))
+    out = u.run(TR, "StateAugmentation.__call__", td, selfobj=obj, record=False)
+    b = u.idx((B,), "b")
+    a = u.idx((A,), "a")
+    i, j = u.idx((N, N), "i j")
+    c = u.idx((2,), "c")
+    same_tensor(u, "symstate.locs.shape", out["locs"], (A * B, N, 2), lambda r, k, cc: out["locs"].at(r, k, cc))
+    u.prove("symstate.first-copy-is-original", out["locs"].at(b, i, c) == td["locs"].at(b, i, c))
+    u.prove("symstate.copy-of-same-instance", sqdist(out["locs"], a * B + b, i, j) == sqdist(td["locs"], b, i, j))
+    u.prove("symstate.other-keys-replicated", out["demand"].at(a * B + b, i) == td["demand"].at(b, i))
+    u.canary("symstate.every-copy-is-original", out["locs"].at(a * B + b, i, c) == td["locs"].at(b, i, c))
+
+
 # ---------------------------------------------------------------------------------------------
 # Evaluation: rewards are computed on the ORIGINAL instance of each row and the best of each instance's own
 # candidates is returned together with the actions of that candidate.
